@@ -80,9 +80,13 @@ def run(c):
     nh = 40 if c.quick() else 400
     for hid in range(nh):
         # every other environment unshares the cgroup namespace before exec: capabilities are dropped and the filter is loaded after the sync
-        ops = [{"op": "newenv", "unshare_cgroup": hid % 2 == 1}, dict(plant)]
+        # every eighth environment has a file bound below each of its two tmpfs mounts: Reset fails there (twice over), and says so once
+        busy = hid % 8 == 5
+        ops = [{"op": "newenv", "unshare_cgroup": hid % 2 == 1, "busy_mounts": busy}, dict(plant)]
         for _ in range(r.randint(1, 30)):
             k = r.random()
+            if busy and k >= 0.8:
+                k = 0.95
             if k < 0.5:
                 ops.append(exec_op(r))
             elif k < 0.65:
@@ -130,6 +134,12 @@ def run(c):
                     c.finding_or_violation(canon("call did not return promptly", ms=ob["ms"]), {"history": x["ops"]})
             elif kind in ("ping", "reset", "delete", "open", "symlink"):
                 e = ob.get("err")
+                if kind == "reset" and x["ops"][0].get("busy_mounts"):
+                    # the reset cannot succeed here; it has to say so, once, and leave the environment usable
+                    if not e and not dead:
+                        c.finding_or_violation(canon("Reset reports success although a mount could not be emptied"), {"history": x["ops"], "observed": o["obs"]}, klass="reset-silent")
+                    if e and "busy" in e:
+                        continue
                 if e and not dead and (kind in ("ping", "reset") or any(w in e for w in TRANSPORT_WORDS)):
                     dead = True
                     c.finding_or_violation(canon("environment unusable: " + e[:90]), {"history": x["ops"], "observed": o["obs"]},
